@@ -1,6 +1,7 @@
 package main
 
 import (
+	"go/constant"
 	"fmt"
 	"go/ast"
 	"go/token"
@@ -14,7 +15,7 @@ import (
 func init() {
 	register(&propDef{
 		ID:          "C09",
-		Explanation: "The fixpoint equation fmt(fmt(x)) == fmt(x) itself is not decided. Decides the structural necessary condition named by the property's anchors — line-break decisions depend only on layout flags that re-parsing the output reproduces: the parser derives each layout flag (Element.IndentChildren, Element.IndentAttrs, GoCode.Multiline) from the presence of a line break inside a source span, so on the flag=false branch the formatter itself must add no line break inside that span, and on the flag=true branch it must add one. R1 in the node-list writer, the line-break constant can reach the trailing-space write only under the `indent` mode (every assignment of a newline-containing constant to the written value is control-dependent on the indent parameter; values taken from the source node are carried over, not added); R2 for each flag, the constants written directly on the false branch contain no line break and the true branch writes at least one; R3 no attribute writer (they run inside the open-tag span) writes a line-break constant unconditionally; R5 a formatter function that writes a trimmed copy of a field tests that same copy (not the raw field) for line breaks; R6 the import rewriter that `templ fmt` runs takes its decision on the number of imports only after the import set is final; R7 the node-list writer takes the recorded trailing space of every node kind that records one (through the interface, or a type switch covering all implementers); R8 the language server's formatting answer is one edit from 0:0 to <number of lines>:0 carrying the formatter's output, so format-on-save and `templ fmt` produce the same file; R9 (= C08.R7) a flag derived from a sibling field is derived from its final value (a quote choice taken before decoding yields output that the next pass cannot parse); R10 the import rewriter does not mutate a file's import list while ranging over it; R4 (purity) no formatter function (Write/String methods of parser nodes and what they call in the package) reads mutable package-level state, the clock, the environment or iterates a map. NOT decided: nodes whose grammar allows but does not require a line break inside a single-line element (block component calls), expression text re-formatting by go/format, the fixpoint on concrete files.",
+		Explanation: "The fixpoint equation fmt(fmt(x)) == fmt(x) itself is not decided. Decides the structural necessary condition named by the property's anchors — line-break decisions depend only on layout flags that re-parsing the output reproduces: the parser derives each layout flag (Element.IndentChildren, Element.IndentAttrs, GoCode.Multiline) from the presence of a line break inside a source span, so on the flag=false branch the formatter itself must add no line break inside that span, and on the flag=true branch it must add one. R1 in the node-list writer, the line-break constant can reach the trailing-space write only under the `indent` mode (every assignment of a newline-containing constant to the written value is control-dependent on the indent parameter; values taken from the source node are carried over, not added); R2 for each flag, the constants written directly on the false branch contain no line break and the true branch writes at least one; R3 no attribute writer (they run inside the open-tag span) writes a line-break constant unconditionally; R5 a formatter function that writes a trimmed copy of a field tests that same copy (not the raw field) for line breaks; R6 the import rewriter that `templ fmt` runs takes its decision on the number of imports only after the import set is final; R7 the node-list writer takes the recorded trailing space of every node kind that records one (through the interface, or a type switch covering all implementers); R8 the language server's formatting answer is one edit from 0:0 to <number of lines>:0 carrying the formatter's output, so format-on-save and `templ fmt` produce the same file; R9 (= C08.R7) a flag derived from a sibling field is derived from its final value (a quote choice taken before decoding yields output that the next pass cannot parse); R10 the import rewriter does not mutate a file's import list while ranging over it; R4 (purity) no formatter function (Write/String methods of parser nodes and what they call in the package) reads mutable package-level state, the clock, the environment or iterates a map. R11 the whitespace classifier (string → TrailingSpace) returns the vertical value only after a test for \"\\n\" — the one character the formatter writes, and every other layout decision counts, as a line break. NOT decided: nodes whose grammar allows but does not require a line break inside a single-line element (block component calls), expression text re-formatting by go/format, the fixpoint on concrete files.",
 		Assumptions: []string{"the parser sets a layout flag iff the corresponding source span contains a line break (elementparser.go / gocodeparser.go)"},
 		Trusted:     []string{"go/types", "x/tools go/packages"},
 		Run:         runC09,
@@ -72,6 +73,7 @@ func runC09(c *Ctx) {
 	formatEditCoversDocument(c, "C09.R8")
 	derivedFlagsFresh(c, "C09.R9")
 	importListNotMutatedWhileRanged(c, "C09.R10")
+	lineBreakIsNewlineOnly(c, "C09.R11")
 	p := c.pkg("parser/v2")
 	info := p.TypesInfo
 
@@ -931,4 +933,130 @@ func importListNotMutatedWhileRanged(c *Ctx, rule string) {
 		})
 	}
 	c.count("ranges_over_file_imports", n)
+}
+
+// lineBreakIsNewlineOnly: C09.R11 — the formatter writes "\n" for a line break, and every other layout decision of the
+// parser (single-line vs multi-line elements, indented attributes) counts lines by "\n". The function that classifies
+// the whitespace after a node (string → TrailingSpace) must call it vertical for exactly that character: if it also
+// treats another character as a line break (a bare \r, \v, \f …), a node inside a single-line element is given a
+// vertical trailer, the first formatting run writes a newline into the single-line element and the second run
+// re-indents it — two runs to converge. Decided over the paths of the classifier's loop body: every path that returns
+// the vertical value took `r == K` as true only for K = '\n'.
+func lineBreakIsNewlineOnly(c *Ctx, rule string) {
+	p := c.pkg("parser/v2")
+	info := p.TypesInfo
+	tsT, _ := p.Types.Scope().Lookup("TrailingSpace").(*types.TypeName)
+	if tsT == nil {
+		c.viol(rule, "anchor-lost:TrailingSpace", "", "parser.TrailingSpace (exported) not found")
+		return
+	}
+	// the constant that stands for a line break: the TrailingSpace constant whose value contains "\n"
+	vertical := map[types.Object]bool{}
+	for _, nm := range p.Types.Scope().Names() {
+		if k, ok := p.Types.Scope().Lookup(nm).(*types.Const); ok && types.Identical(k.Type(), tsT.Type()) && k.Val().Kind() == constant.String && strings.Contains(constant.StringVal(k.Val()), "\n") {
+			vertical[k] = true
+		}
+	}
+	n := 0
+	for _, fd := range allFuncDecls(p) {
+		if fd.Recv != nil || fd.Type.Params.NumFields() != 1 || fd.Type.Results == nil || len(fd.Type.Results.List) < 1 {
+			continue
+		}
+		if t := info.TypeOf(fd.Type.Params.List[0].Type); t == nil || !isStringType(t) {
+			continue
+		}
+		if t := info.TypeOf(fd.Type.Results.List[0].Type); t == nil || !types.Identical(t, tsT.Type()) {
+			continue
+		}
+		n++
+		key := funcKey(p, fd) + "|vertical-only-for-newline"
+		var loop *ast.RangeStmt
+		ast.Inspect(fd.Body, func(x ast.Node) bool {
+			if rs, ok := x.(*ast.RangeStmt); ok && loop == nil {
+				loop = rs
+			}
+			return true
+		})
+		returnsVertical := func(r *ast.ReturnStmt) bool {
+			if r == nil || len(r.Results) == 0 {
+				return false
+			}
+			id, ok := ast.Unparen(r.Results[0]).(*ast.Ident)
+			return ok && vertical[info.ObjectOf(id)]
+		}
+		var bodies [][]ast.Stmt
+		if loop != nil {
+			bodies = append(bodies, loop.Body.List)
+		}
+		bodies = append(bodies, fd.Body.List)
+		bad, undec := "", ""
+		nvert := 0
+		for bi, body := range bodies {
+			den := &denum{info: info, pkg: p.Types, inits: map[types.Object]ast.Expr{}, limit: 5000, opaqueLoops: true, loopBody: bi == 0 && loop != nil}
+			den.finish(den.run(body, []dstate{{env: map[types.Object]ast.Expr{}}}))
+			if den.undecided != "" {
+				undec = den.undecided
+				continue
+			}
+			for _, pth := range den.paths {
+				if !returnsVertical(pth.Ret) {
+					continue
+				}
+				nvert++
+				justified := false
+				for _, pc := range pth.Conds {
+					if !pc.Val {
+						continue
+					}
+					switch e := ast.Unparen(pc.Expr).(type) {
+					case *ast.BinaryExpr:
+						if e.Op == token.EQL {
+							for _, side := range []ast.Expr{e.X, e.Y} {
+								if tv, ok := info.Types[side]; ok && tv.Value != nil {
+									s := ""
+									switch tv.Value.Kind() {
+									case constant.Int:
+										i, _ := constant.Int64Val(tv.Value)
+										s = string(rune(i))
+									case constant.String:
+										s = constant.StringVal(tv.Value)
+									}
+									if s == "\n" {
+										justified = true
+									} else if s != "" {
+										bad = fmt.Sprintf("%q", s)
+									}
+								}
+							}
+						}
+					case *ast.CallExpr:
+						if fn := calleeOf(info, e); fn != nil && fn.Pkg() != nil && fn.Pkg().Path() == "strings" && len(e.Args) == 2 {
+							if k, isC := constString(info, e.Args[1]); isC {
+								if k == "\n" {
+									justified = true
+								} else if strings.ContainsAny(k, "\r\v\f\u0085\u2028\u2029") {
+									bad = fmt.Sprintf("%q", k)
+								}
+							}
+						} else if fn != nil && fn.Pkg() != nil && fn.Pkg().Path() == "unicode" {
+							undec = "a unicode class test (" + types.ExprString(e) + ") decides what a line break is"
+						}
+					}
+				}
+				if !justified && bad == "" && bi == 0 {
+					undec = "a path returns the vertical value without a test for \"\\n\""
+				}
+			}
+		}
+		switch {
+		case bad != "":
+			c.viol(rule, key, c.pos(fd.Pos()), fmt.Sprintf("%s also classifies %s as a line break, while the formatter writes and every other layout decision counts \"\\n\" only: whitespace containing it (and no \"\\n\") after a node inside a single-line element gets a vertical trailer; the first `templ fmt` run then writes a newline into that single-line element and the second run re-indents it", fd.Name.Name, bad))
+		case undec != "":
+			c.undec(rule, key, c.pos(fd.Pos()), fd.Name.Name+": "+undec)
+		default:
+			c.ok(rule, key, c.pos(fd.Pos()), fmt.Sprintf("%d path(s) return the vertical value, each after a test for \"\\n\" only", nvert))
+		}
+	}
+	c.count("trailing_space_classifiers", n)
+	c.floor(rule, 1)
 }
